@@ -133,7 +133,7 @@ PROPS = {
         level="model_checking",
         level_text='bounded model checking by symbolic execution: on every feasible path of Build + ParseString over a symbolic token stream: no panic; nil error implies non-nil AST; an error implements participle.Error, comes with a non-nil partial AST, its position is the position of a token of the input, an UnexpectedTokenError carries the token at that position, and Error() is the documented [file:]line:col: message rendering',
         level_note='trusted: the reference semantics (own tag parser + evaluator written from the README, validated natively against the implementation on 960k random cases while designing), the reflect model of the executor (sampled paths are replayed natively with the real reflect on every run), z3; bounds: catalogue grammars x streams of <= 5 (quick) / <= 6 (thorough) tokens of arbitrary type and arbitrary one-byte text, lookahead an unconstrained 64-bit int, AllowTrailing symbolic',
-        runs=[dict(pkg=".", files=["root/zz_verif_ref.go", "root/zz_verif_ggcore.go", "root/zz_verif_parse.go", "root/zz_verif_grammars.go", "root/zz_verif_gengrammar.go", "root/zz_verif_entry.go"], harness='^VH_C06_', reach={'VH_C06_Seq': ['ok', 'error', 'unexpected-token'], 'VH_C06_EmptyTok': ['ok', 'error'], 'VH_C06_Bytes': ['ok', 'lex-error', 'parse-error'], 'VH_C06_LongError': ['lex-error']})],
+        runs=[dict(pkg=".", files=["root/zz_verif_ref.go", "root/zz_verif_ggcore.go", "root/zz_verif_parse.go", "root/zz_verif_grammars.go", "root/zz_verif_gengrammar.go", "root/zz_verif_entry.go"], harness='^VH_C06_', reach={'VH_C06_Seq': ['ok', 'error', 'unexpected-token'], 'VH_C06_EmptyTok': ['ok', 'error'], 'VH_C06_Bytes': ['ok', 'lex-error', 'parse-error'], 'VH_C06_LongError': ['lex-error'], 'VH_C06_DefaultLexer': ['ok', 'lex-error', 'parse-error'], 'VH_C06_Unquote': ['error']})],
         bounds={'quick': 'streams of <= 5 tokens + EOF, token types arbitrary 64-bit values != EOF, token texts arbitrary single bytes, lookahead any int (negative = unlimited), AllowTrailing on/off; symbols A,B,C,Ws,Cm; plus 48 generated grammars (deterministic generator over every operator of the tag language, <= 3 productions, reflect.StructOf types through the real Build) x streams of <= 4 tokens (every twelfth grammar is one level deeper - repetitions inside captures, negated groups - and gets streams of <= 3)', 'thorough': 'as quick with streams of <= 6 tokens; 200 generated grammars x streams of <= 5 tokens (<= 4 for the deeper ones)'},
         outside='stack depth and running time on long or deeply nested inputs (a bounded symbolic run says nothing about them); lexing failures through the real lexers (covered by C03/C07 at the lexer level); grammars outside the catalogue; user Parseable/Capture code',
         assumptions=["text/scanner, strconv, unicode are executed from SSA; reflect is modelled over go/types; fmt by a small printf model",
@@ -240,7 +240,7 @@ PROPS = {
         level="model_checking",
         level_text="partial claim, bounded exploration through the symbolic executor: (a) every EBNF syntax tree of a bounded template (Negation symbolic, any modifier, name/literal/token/group, any lookahead marker, sequences and alternatives) is printed by the real String methods and parsed back by the real ebnf parser; the trees must be equal (so no operator is lost or altered); (b) for grammars using every operator, a union and anonymous struct types, the real Parser.String() must not panic, must be accepted by the ebnf package, put the root production first, define every referenced production exactly once, contain every operator of the grammar, and survive a second round trip",
         level_note="trusted: text/scanner executed from SSA on the (concrete) printed text; the template's shape selectors are finite (enumeration through the executor; the solver decides the symbolic Negation flag); whole-grammar half is a fixed catalogue of 3 grammars",
-        runs=[dict(pkg="ebnf", files=["ebnf/zz_verif_ebnf.go", "root/zz_verif_ggcore.go"], harness="^VH_C14_", max_steps=60_000_000, reach={"VH_C14_TreeRoundTrip": ["round-trip"], "VH_C14_Literals": ["round-trip"], "VH_C14_Grammar_All": ["grammar"], "VH_C14_Grammar_Anonymous": ["grammar"], "VH_C14_Generated": ["grammar"], "VH_C14_Grammar_WholeBody": ["grammar"], "VH_C14_Grammar_Negations": ["grammar"], "VH_C14_Grammar_AnonTwins": ["grammar"], "VH_C14_Grammar_LookaheadOnly": ["grammar"]})],
+        runs=[dict(pkg="ebnf", files=["ebnf/zz_verif_ebnf.go", "root/zz_verif_ggcore.go"], harness="^VH_C14_", max_steps=60_000_000, reach={"VH_C14_TreeRoundTrip": ["round-trip"], "VH_C14_Literals": ["round-trip"], "VH_C14_Grammar_All": ["grammar"], "VH_C14_Grammar_Anonymous": ["grammar"], "VH_C14_Generated": ["grammar"], "VH_C14_Grammar_WholeBody": ["grammar"], "VH_C14_Grammar_Negations": ["grammar"], "VH_C14_Grammar_AnonTwins": ["grammar"], "VH_C14_Grammar_LookaheadOnly": ["grammar"], "VH_C14_Grammar_CapParens": ["grammar"]})],
         bounds=dict(quick="trees: first term a leaf or a group (any lookahead marker) around a term, second element (sequence or alternative) a simple leaf; 12 090 trees; grammars: all-operators grammar (incl. literals that need escaping), union grammar, anonymous struct grammar, 48 generated grammars (union root, anonymous struct types, every operator, escaped literals); literal terms: 9 escape-needing texts in sequences and alternatives",
                     thorough="group nesting depth 2; 400 generated grammars"),
         outside="grammars outside the three catalogue grammars; literal texts needing escapes beyond quote and backslash; cmd/railroad",
